@@ -1,5 +1,6 @@
 import AgVerif.Model.Proto
 import AgVerif.Model.DexFile
+import AgVerif.Model.DexFileX
 open AgVerif AgVerif.Proto AgVerif.DexFile
 
 def sep (s : String) (l : List String) : String := s.intercalate l
@@ -55,6 +56,44 @@ def showDex (d : DexV) : String :=
   "ok S[" ++ sep "," (d.strings.map toHex) ++ "] C[" ++ sep "|" (d.classes.map showClass) ++ "] L[" ++
     showLookups d ++ "]"
 
+
+/-! extended view (Model/DexFileX.lean): static values, init values, annotations -/
+
+def strHex (s : String) : String := toHex (s.toList.map Char.toNat)
+
+mutual
+def showValue : AgVerif.EncodedValue.Value → String
+  | .int vt v => s!"i{vt}:{v}"
+  | .float b => s!"f:{b}"
+  | .double b => s!"d:{b}"
+  | .ref vt l => s!"r{vt}:" ++ sep "," (l.map strHex)
+  | .array vs => "a[" ++ sep ";" (showValues vs) ++ "]"
+  | .annotation t es => s!"n{t}" ++ "{" ++ sep ";" (showElems es) ++ "}"
+  | .null => "z"
+  | .bool b => if b then "b1" else "b0"
+  | .unknown vt => s!"u{vt}"
+def showValues : List AgVerif.EncodedValue.Value → List String
+  | [] => []
+  | v :: vs => showValue v :: showValues vs
+def showElems : List (Nat × AgVerif.EncodedValue.Value) → List String
+  | [] => []
+  | (n, v) :: es => (s!"{n}=" ++ showValue v) :: showElems es
+end
+
+def showPairs (l : List (Nat × Nat)) : String := sep "," (l.map fun p => s!"{p.1}>{p.2}")
+
+def showAnnDir : Option AnnDir → String
+  | none => "-"
+  | some d => s!"{d.classOff}.f:{showPairs d.fields}.m:{showPairs d.methods}.p:{showPairs d.params}"
+
+def showClassX (c : ClassVX) : String :=
+  let ini := sep "/" (c.inits.map fun o => match o with | none => "-" | some v => showValue v)
+  let st := match c.statics with | none => "-" | some vs => sep ";" (showValues vs)
+  s!"I({ini}) S({st}) D({showAnnDir c.annDir}) A({sep "," (c.annotations.map toHex)})"
+
+def showDexX (d : DexVX) : String :=
+  showDex d.base ++ " X[" ++ sep "|" (d.classes.map showClassX) ++ "]"
+
 def showEncF (l : List EncField) : String := sep "/" (l.map fun f => s!"{f.idx}:{f.flags}")
 def showEncM (l : List EncMethod) : String := sep "/" (l.map fun m => s!"{m.idx}:{m.flags}:{m.codeOff}")
 
@@ -63,6 +102,11 @@ def handle (line : String) : String :=
   | ["dex", h] => match parseHex h with
     | some bs => (match parseDex bs with
       | .ok d => showDex d
+      | .error e => s!"err {e}")
+    | none => "bad-op"
+  | ["dexx", h] => match parseHex h with
+    | some bs => (match parseDexX bs with
+      | .ok d => showDexX d
       | .error e => s!"err {e}")
     | none => "bad-op"
   | ["classdata", h] => match parseHex h with
